@@ -29,7 +29,7 @@ func init() {
 				"reported as information.",
 			NotCovered: "that (*dns.Msg).Unpack is a function of its argument only (trusted); semantics of the " +
 				"third-party DNSCrypt and HTTP libraries' own buffers.",
-			Rules: map[string]string{
+			Rules: map[string]string{"C06-R5": "a response goes back to the message pools only from writers after which nothing reads it (dispose gates, shared with C07-R3)",
 				"C06-R1": "length provenance of every (*dns.Msg).Unpack argument: Bounded | FullyRead | Fresh on all paths",
 				"C06-R3": "buffer-pool wiring: a pool field of a reader / writer is set from the server's pool field of the same name (request buffers and response buffers never share a pool)",
 				"C06-R2": "no use of a pooled receive buffer after Pool.Put on any path; Put after hand-over to a worker only inside the worker",
